@@ -791,6 +791,14 @@ class NumericWaveform(ABC, Generic[_TRaw, _TScaled]):
 
     @classmethod
     def _unpickle(cls, args: tuple[Any, ...], kwargs: dict[str, Any]) -> Self:
+        data = kwargs.get("raw_data")
+        if isinstance(data, np.ndarray):
+            owner = data
+            while isinstance(owner.base, np.ndarray):
+                owner = owner.base
+            if not owner.flags.owndata:
+                # Pickle protocol 5 rebuilds arrays on top of the pickle's buffer, which cannot grow.
+                kwargs = {**kwargs, "raw_data": data.copy()}
         return cls(*args, **kwargs)
 
     def __repr__(self) -> str:
